@@ -318,6 +318,10 @@ func (repo *Repository) ProcessHeader(ctx context.Context, header *wire.BlockHea
 	repo.Lock()
 	defer repo.Unlock()
 
+	if !bitsAreConvertible(header.Bits) {
+		return errors.Wrapf(ErrInvalidTarget, "header 0x%08x", header.Bits)
+	}
+
 	if !repo.disableDifficulty && !header.WorkIsValid() {
 		return ErrNotEnoughWork
 	}
@@ -499,6 +503,18 @@ func (repo *Repository) ProcessHeader(ctx context.Context, header *wire.BlockHea
 	}
 
 	return nil
+}
+
+// bitsAreConvertible returns false for target bits that bitcoin.ConvertToDifficulty can't convert.
+// It indexes past the end of its buffer (panics) when the length byte, after it is decremented for
+// a zero high mantissa byte, is one. No header of the real chain has such a value.
+func bitsAreConvertible(bits uint32) bool {
+	length := uint8((bits >> 24) & 0xff)
+	if (bits & 0x00ff0000) == 0 {
+		length--
+	}
+
+	return length != 1
 }
 
 func (repo *Repository) sendBranchUpdate(branch, previousLongest *Branch) error {
